@@ -436,8 +436,8 @@ def execute(trace: dict, known, collect_log=True) -> dict:
                 form = "path"
             else:
                 disk.put("in", data)
-                arg = disk.materialize_dir("in")
-                cleanup = lambda: shutil.rmtree(arg, ignore_errors=True)  # noqa: E731
+                arg = disk.materialize_dir("in", link=(form == "dirlink"))
+                cleanup = lambda: (shutil.rmtree(arg, ignore_errors=True), shutil.rmtree(arg + ".linked", ignore_errors=True))  # noqa: E731
         try:
             try:
                 prs = pptx.Presentation(arg)
@@ -452,7 +452,7 @@ def execute(trace: dict, known, collect_log=True) -> dict:
                 cleanup()
         if exp[0] == "refuse":
             want = exp[1] if form in ("path",) else exp[2]
-            if form == "dir":
+            if form in ("dir", "dirlink"):
                 want = exp[1]
             got = type(raised).__name__ if raised is not None else "opened"
             res["outcomes"].append("refused:%s" % got)
@@ -602,7 +602,7 @@ def gen_trace(seed: int, tier: str) -> dict:
     singles = all_singles()
     S = Streams(seed)
     r = S("pick")
-    form = r.choice(["stream", "path", "dir"])
+    form = r.choice(["stream", "path", "dir", "dirlink"])
     deck, x = singles[r.randrange(len(singles))]
     faults = [x]
     if r.random() < 0.3:
@@ -615,7 +615,8 @@ def gen_trace(seed: int, tier: str) -> dict:
     k = rp.random()
     name_free = all(y["fault"] in ("rename_slides", "extra_member", "remove_core_props", "truncate", "non_zip", "wrong_main_ctype") for y in faults)
     if k < 0.25:
-        t["pre"] = [{"kind": "explicit_internal", "rate": rp.choice([1.0, 0.5]), "seed": rp.randint(0, 99)}]
+        t["pre"] = [rp.choice([{"kind": "explicit_internal", "rate": rp.choice([1.0, 0.5]), "seed": rp.randint(0, 99)},
+                               {"kind": "respell_package_xml", "style": rp.choice(["mixed", "prefixed", "multiline", "utf16"]), "seed": rp.randint(0, 99)}])]
     elif k < 0.40 and name_free:
         t["pre"] = [rp.choice([{"kind": "respell_rids", "style": "mixed", "seed": rp.randint(0, 99)},
                                {"kind": "respell_targets", "style": rp.choice(["mixed", "abs", "dot", "updown"]), "seed": rp.randint(0, 99)},
@@ -660,9 +661,12 @@ def pinned_traces(tier):
     # every corpus deck unfaulted in directory form
     for d in common.corpus_decks():
         out.append({"property": ID, "seed": "dirform-%s" % d, "tier": "pinned", "deck": d, "faults": [], "form": "dir", "events": []})
+        out.append({"property": ID, "seed": "dirlinkform-%s" % d, "tier": "pinned", "deck": d, "faults": [], "form": "dirlink", "events": []})
         # ... and as another producer spells it: explicit TargetMode="Internal", its own relationship ids, its own part numbering
         out.append({"property": ID, "seed": "explicit-internal-%s" % d, "tier": "pinned", "deck": d, "faults": [], "form": "stream", "events": [],
                     "pre": [{"kind": "explicit_internal", "rate": 1.0, "seed": 0}]})
+        out.append({"property": ID, "seed": "package-xml-respelled-%s" % d, "tier": "pinned", "deck": d, "faults": [], "form": "stream", "events": [],
+                    "pre": [{"kind": "respell_package_xml", "style": ("prefixed", "multiline", "utf16")[len(d) % 3], "seed": 0}]})
         out.append({"property": ID, "seed": "respelled-%s" % d, "tier": "pinned", "deck": d, "faults": [{"fault": "rename_slides", "mode": "lastfits", "seed": 3}], "form": "path", "events": [],
                     "pre": [{"kind": "respell_rids", "style": "mixed", "seed": 1}, {"kind": "renumber", "family": "media", "mode": "odd", "seed": 1},
                             {"kind": "renumber", "family": "charts", "mode": "shift", "seed": 1}]})
